@@ -41,7 +41,7 @@ Lemma stapa_decodes st nri us : nri_ok nri -> Forall (fun u => zlen u < 65536) u
   = Ok (st, concat (map (prefixed (hk_avc st)) us)).
 Proof.
   intros Hn Hall. unfold h264_unmarshal.
-  assert (Hty : Z.land (Z.lor 24 nri) 31 = 24) by (destruct Hn as [->|[->|[->| ->]]]; reflexivity).
+  assert (Hty : Z.land (Z.lor 24 nri) 31 = 24) by (destruct Hn as [->|[->|[->|[->|[->|[->|[->| ->]]]]]]]; reflexivity).
   rewrite Hty. change ((0 <? 24) && (24 <? 24)) with false. change (24 =? 24) with true. cbv iota.
   rewrite stapa_units.
   - rewrite fold_packaging. reflexivity.
@@ -80,9 +80,9 @@ Proof.
     rewrite (stapa_decodes (mkH264Pkt avc stale) nri us Hn Hall). cbn [hk_avc]. rewrite app_nil_r. reflexivity.
   - destruct Hwf as (Hh & Hty & Hlen). exists [].
     destruct (nal_header_split h Hh) as [Hsplit Hnri].
-    pose proof (fua_enc_rel (Z.lor 28 (Z.land h 96)) (Z.land h 31) cs true
+    pose proof (fua_enc_rel (Z.lor 28 (Z.land h 224)) (Z.land h 31) cs true
                   ltac:(destruct cs; [cbn [length] in Hlen; lia|discriminate]) ltac:(intros _; exact Hlen)) as Hrel.
-    pose proof (depack_fua avc (Z.land h 96) (Z.land h 31) _ _ Hnri Hty Hrel stale) as D.
+    pose proof (depack_fua avc (Z.land h 224) (Z.land h 31) _ _ Hnri Hty Hrel stale) as D.
     rewrite map_own_bytes in D. rewrite D. cbn [map concat]. rewrite app_nil_r.
     unfold prefixed.
     rewrite Hsplit. reflexivity.
